@@ -3,6 +3,7 @@ import Pcore.Proofs.LatFam
 import Pcore.Proofs.DescribeWF
 import Pcore.Proofs.DescribeSig
 import Pcore.Proofs.DescribeLeaf
+import Pcore.Proofs.DescribeTm
 set_option linter.unusedSimpArgs false
 set_option linter.unusedVariables false
 /-!
@@ -42,6 +43,9 @@ Full statement / proved / missing
   mergeMismatch replaces the expected range of merged size mismatches by the HULL of the members' ranges, which may contain the actual
   range (`C19_sizeMismatch_merged_hull`: Variant[Array[String,0,1], Array[String,5,6]] against Array[String,3,3] reports "size 0..6, got 3").
   Not a violation of C19's own text (the description is non-empty and names the subject); recorded here, not as a finding.
+* `C19_typeMismatch_real_partial`, `C19_patternMismatch_real_partial` — PROVED: for a `noMerge` expectation and a `plain` actual type (no Unit /
+  NotUndef / Optional / Variant / alias at a reached position, no optional Struct key) the reported expected type does not accept the
+  reported actual type.
 * `C19_typeMismatch_real` (def, full statement: the reported expected type does not accept the reported actual type) — FALSE of the code for
   nested positions: the container arms report a type mismatch for every actual type of another kind WITHOUT asking IsAssignable, so a
   NotUndef / Variant / alias wrapper around an acceptable type is reported (`C19_typeMismatch_nested_wrapper`); the top level is protected by
@@ -293,6 +297,25 @@ theorem C19_typeMismatch_nested_wrapper (cfg : Cfg) :
              .extraneousKey (subjectPath "x") "z"] := by
   simp [describe, internalDescribe, descAll, structItems, lookupLast, distinctNames, Res.append,
     asg, asgRecv, sameNullary, structAll, structMember, distinctCount, subjectPath, Rng.sub, Rng.pos, I64.max]
+
+/-- PROVED part: when nothing is merged (`noMerge` expectation) and the actual type is `plain` — no Unit / NotUndef / Optional / Variant /
+    alias at any position the describer reaches and no optional Struct key: the kinds GuardedIsAssignable decomposes on the right —
+    the expected type every type mismatch reports does not accept the actual type it reports … -/
+theorem C19_typeMismatch_real_partial (cfg : Cfg) (sfh : Bool) (e a : Ty) (p q : Path) (t act : Ty) (ms : List Mismatch)
+    (hnm : noMerge e = true) (hpl : plain a = true) (h : describe cfg sfh e a p = .ok ms)
+    (hm : Mismatch.typeMismatch q (.ofTy t) act ∈ ms) : asg cfg sfh t act = false :=
+  describe_tmReal_top cfg sfh e a p ms hnm hpl h _ hm t rfl
+
+/-- … and neither does the expected type of a pattern mismatch -/
+theorem C19_patternMismatch_real_partial (cfg : Cfg) (sfh : Bool) (e a : Ty) (p q : Path) (t act : Ty) (ms : List Mismatch)
+    (hnm : noMerge e = true) (hpl : plain a = true) (h : describe cfg sfh e a p = .ok ms)
+    (hm : Mismatch.patternMismatch q t act ∈ ms) : asg cfg sfh t act = false :=
+  describe_tmReal_top cfg sfh e a p ms hnm hpl h _ hm
+
+/-- the hypotheses are satisfiable by a description with a nested type mismatch (the example further down: Array[Integer[1,2],0,5]
+    against Tuple[Integer[1,1], String]) -/
+example : noMerge (.array (.int ⟨1, 2⟩) ⟨0, 5⟩) = true ∧ plain (.tuple [.int ⟨1, 1⟩, .str] none) = true := by
+  simp [noMerge, plain, plainL]
 
 theorem C19_typeMismatch_real_false (cfg : Cfg) : ¬ C19_typeMismatch_real cfg true := by
   intro h
